@@ -83,6 +83,10 @@ fn ans_strategy() -> BoxedStrategy<Ans> {
         2 => Just(Ans::Err(b"Failed to connect to 10.0.0.1:80: Connection refused".to_vec())),
         1 => Just(Ans::Err("目标不可达 ünreachable".as_bytes().to_vec())),
         1 => Just(Ans::Err(vec![0xff, 0xfe, b'b', b'a', b'd'])),
+        // long reasons: multi-byte characters and invalid bytes around any plausible cut-off
+        1 => (200usize..700).prop_map(|n| Ans::Err("é".repeat(n).into_bytes())),
+        1 => (250usize..300).prop_map(|n| Ans::Err(vec![0xff; n])),
+        1 => Just(Ans::Err(format!("{}{}", "x".repeat(255), "名前解決に失敗しました").into_bytes())),
     ]
     .boxed()
 }
